@@ -666,7 +666,7 @@ def run(chk):
         raise RuntimeError("harness build failed (does /repo still compile?):\n" + outh[-3000:])
 
     rng = vlib.Rng(chk.seed * 1000003 + 6)
-    n = 110 if chk.tier == "quick" else 1000
+    n = 200 if chk.tier == "quick" else 1000
     cases = load_corpus()
     ncorpus = len(cases)
     cases += forced_cases()
